@@ -243,7 +243,7 @@ impl Scenario for ExhaustiveF32 {
         "categorical_f32_all_variates"
     }
     fn runs(&self, tier: Tier) -> u64 {
-        tier.pick(16, 320)
+        tier.pick(16, 960)
     }
     fn generate(&self, g: &mut Gen, _t: Tier, _i: u64) -> Value {
         json!({"gseed": g.u64()})
